@@ -142,9 +142,13 @@ def run(ctx) -> None:
     # reader: comparisons obj.get(K) == V / obj[K] == V with the arm that rebuilds the value
     reader_tags = {}
     for n in ast.walk(dec):
-        if isinstance(n, ast.If) and isinstance(n.test, ast.Compare) and len(n.test.ops) == 1 and \
-                isinstance(n.test.ops[0], ast.Eq):
-            a, b = n.test.left, n.test.comparators[0]
+        if not isinstance(n, ast.If):
+            continue
+        conj = n.test.values if isinstance(n.test, ast.BoolOp) and isinstance(n.test.op, ast.And) else [n.test]
+        for cmp_ in conj:
+            if not (isinstance(cmp_, ast.Compare) and len(cmp_.ops) == 1 and isinstance(cmp_.ops[0], ast.Eq)):
+                continue
+            a, b = cmp_.left, cmp_.comparators[0]
             for x, y in ((a, b), (b, a)):
                 k = reg._const_key_read(x, dobj)
                 if k is not None and isinstance(y, ast.Constant) and isinstance(y.value, str):
@@ -152,7 +156,7 @@ def run(ctx) -> None:
                     ctx.require(len(rets) == 1, f"decode_types: arm for tag {y.value!r} has no single return")
                     rv = rets[0].value
                     ctor = dotted(rv.func) if isinstance(rv, ast.Call) else None
-                    vkeys = {reg._const_key_read(s, dobj) for s in ast.walk(rv)} - {None}
+                    vkeys = {reg._const_key_read(s, dobj) for st in n.body for s in ast.walk(st)} - {None, k}
                     reader_tags[(k, y.value)] = (ctor, vkeys, _recursive_calls(rv, dec.name) > 0, n)
     for tk, tag, vk, pytype, node, rec in writer_tags:
         r = reader_tags.get((tk, tag))
@@ -272,9 +276,14 @@ def run(ctx) -> None:
                        for p in _fstring_prefixes(n.key)})
     ctx.require(len(axis_pre) == 1, f"{m2d.qualname}: per-axis key pattern not found")
     ap = axis_pre[0]
-    splits = [(n, n.value.args[0].value, n.slice.value) for n in ast.walk(canon.node)
+    def _int_const(e):
+        if isinstance(e, ast.UnaryOp) and isinstance(e.op, ast.USub) and isinstance(e.operand, ast.Constant):
+            return -e.operand.value
+        return e.value if isinstance(e, ast.Constant) and isinstance(e.value, int) else None
+
+    splits = [(n, n.value.args[0].value, _int_const(n.slice)) for n in ast.walk(canon.node)
               if isinstance(n, ast.Subscript) and isinstance(n.value, ast.Call) and last_attr(n.value) == "split"
-              and n.value.args and isinstance(n.value.args[0], ast.Constant) and isinstance(n.slice, ast.Constant)]
+              and n.value.args and isinstance(n.value.args[0], ast.Constant) and _int_const(n.slice) is not None]
     ctx.require(len(splits) == 1, f"{canon.qualname}: axis ordering key not recognised")
     _, sep, pos = splits[0]
     parts = (ap + "7").split(sep)
